@@ -218,6 +218,7 @@ PROPS["C18"] = {
         rapid("racing-writers", "webserver", "TestVerif_C18_RacingWriters", 60, 500),
         rapid("parked-writers", "webserver", "TestVerif_C18_ParkedWriters", 300, 3000),
         rapid("readers-vs-replacements", "webserver", "TestVerif_C18_ReadersVsReplacements", 40, 300, shards=8, quick_shards=4),
+        rapid("racing-updates", "webserver", "TestVerif_C17_RacingUpdates", 40, 300, shards=8, quick_shards=4),
         crash("crash-points", "group", "group", 6, 60),
         crash("fault-points", "group", "group", 6, 48, mode="fault"),
     ],
